@@ -119,6 +119,8 @@ def c08(res: CheckResult) -> None:
     def_unit(res, "snapshot names along hierarchies: duplicates between bases, between base and override; "
                   "snapshots placed before any postcondition", list(DF.fam_snap_names(res.tier, rng)), ic, rng=rng)
     def_unit(res, "decorator stacks: snapshots at every position", list(DF.fam_stacks(res.tier, rng)), ic, rng=rng)
+    from icv import tablecheck as T
+    T.check_misuse(res, ic, only=lambda cell: cell["d"] == "snapshot")
 
 
 @check("C09")
